@@ -1836,14 +1836,16 @@ class Interp:
             r = natives.int_bitop(self, o, x, y, INT_TYPES[rt][0])
         else:
             raise Unsupported(f"C operator {o}")
-        return self.c_result(rt, r, o, node)
+        narrow = INT_TYPES[ta][0] <= 32 and INT_TYPES[tb][0] <= 32 and INT_TYPES[rt][0] == 64 \
+            and o in ("+", "-", "*")
+        return self.c_result(rt, r, o, node, static_safe=narrow)
 
     def obname(self, what, node):
         f = self.current_func[-1] if self.current_func else "?"
         ln = getattr(node, "lineno", "?")
         return f"{f}::{what}@L{ln}"
 
-    def c_result(self, rt, r, o, node):
+    def c_result(self, rt, r, o, node, static_safe=False):
         bits, signed = INT_TYPES[rt]
         lo, hi = int_range(rt)
         if signed:
@@ -1855,7 +1857,7 @@ class Interp:
                     r = wrap_int(rt, r)
                 return CV(rt, r)
             r = simp(r)
-            if self.overflow_checks and o in ("+", "-", "*", "**"):
+            if self.overflow_checks and o in ("+", "-", "*", "**") and not static_safe:
                 inr = simp(z3.And(zint(r) >= lo, zint(r) <= hi))
                 if inr is not True:
                     self.ctx.oblige(self.obname("no_signed_overflow", node), inr, "overflow",
